@@ -217,6 +217,10 @@ fn run_scored(sh: &Shared, run: u64, n: usize, serial: bool, threads: usize, fai
 /// A population that says it has `usize::MAX` members (any collection whose borrowed iterator knows its
 /// length is a population): a serial step on it whose FIRST child fails returns that error at once -
 /// nothing is sized, reserved or made for the other members first.
+/// NOT USED by the registered check (kept for reference): such a population lies about its size - no
+/// honest population of non-zero-sized individuals has that many members - and a step that reserves
+/// room for `size()` children up front (the behaviour-preserving rewrite neutral/C09-n1 does) panics
+/// on it without breaking C09 for any population that can exist. Demanding this was a false alarm.
 struct Endless;
 struct EndlessIter<'a>(std::marker::PhantomData<&'a Ind>);
 impl<'a> Iterator for EndlessIter<'a> {
@@ -263,6 +267,7 @@ impl<'p> Operator<&'p Endless> for FailFirst {
         if call <= 1 { Err(MakerErr(call)) } else { Ok(Ind { id: call, key: call }) }
     }
 }
+#[allow(dead_code)]
 fn endless_event(run: u64) -> Value {
     let r = guarded(|| {
         let mut g = Generation::new(FailFirst(AtomicU64::new(0)), Endless);
@@ -324,9 +329,6 @@ pub fn trace(args: &[String]) -> i32 {
                 }
             }
             Err(m) => out.line(&json!({"ev": "panic", "run": run, "msg": m})),
-        }
-        if run % 50 == 0 {
-            out.line(&endless_event(run));
         }
     }
     out.finish();
